@@ -460,7 +460,15 @@ def rw_unchecked(s, stats):
     return ''.join(out)
 
 
-STD_REWRITES = [strip_attrs_docs, rw_unsafe, rw_range_contains, rw_debug_assert, rw_assert, rw_panics, rw_unchecked]
+def rw_discard(s, stats):
+    """R8: `_ = expr;` (discarded value) -> `let _discard = expr;`"""
+    def f(m):
+        stats['R8'] = stats.get('R8', 0) + 1
+        return m.group(1) + 'let _discard ='
+    return re.sub(r'(^|[;{}]\s*)_\s*=(?![=>])', f, s)
+
+
+STD_REWRITES = [rw_discard, strip_attrs_docs, rw_unsafe, rw_range_contains, rw_debug_assert, rw_assert, rw_panics, rw_unchecked]
 
 
 def standard_rewrites(item, stats):
@@ -593,7 +601,7 @@ def parse_vc(path, variables=None):
             assert rest == '<<<'
             b, i = block(i)
             cur.spec += b + '\n'
-        elif kw in ('after', 'before'):
+        elif kw in ('after', 'before', 'after*', 'before*', 'after*?', 'before*?'):
             mm = re.match(r'(?:#(\d+)\s+)?/(.*)/\s*<<<$', rest)
             if not mm:
                 raise Lost("%s: bad hint line: %s" % (path, st))
@@ -603,6 +611,9 @@ def parse_vc(path, variables=None):
             mm = re.match(r'(\d+)\s*<<<$', rest)
             b, i = block(i)
             cur.loops[int(mm.group(1))] = b
+        elif kw == 'loop*':
+            b, i = block(i)
+            cur.loops['*'] = b
         else:
             raise Lost("%s: unknown keyword %s" % (path, kw))
     return u
@@ -703,8 +714,10 @@ def splice(item, spec, stats):
                     k += 1
             if ordinal in spec.loops:
                 inserts.append((k, '\n' + spec.loops[ordinal] + '\n'))
+            elif '*' in spec.loops:
+                inserts.append((k, '\n' + spec.loops['*'] + '\n'))
             pos = m.end()
-        missing = set(spec.loops) - set(range(1, ordinal + 1))
+        missing = set(spec.loops) - set(range(1, ordinal + 1)) - {'*'}
         if missing:
             raise Lost("loop ordinal(s) %s not found in %s (has %d loops)" % (sorted(missing), spec.path, ordinal))
         for k, t in sorted(inserts, reverse=True):
@@ -712,6 +725,33 @@ def splice(item, spec, stats):
     # hints
     for where, nth, rx, text in spec.hints:
         rx = rx.replace(' ', r'\s+')
+        optional = where.endswith('?')
+        where = where.rstrip('?')
+        if where.endswith('*'):
+            # every occurrence; `\\1`.. in the hint text are replaced by the match's groups
+            ms = []
+            pos = 0
+            while True:
+                m = find_code(body, re.compile(rx), pos)
+                if not m:
+                    break
+                ms.append(m)
+                pos = m.end()
+            if not ms and not optional:
+                raise Lost("anchor* /%s/ not found in %s" % (rx, spec.path))
+            for m in reversed(ms):
+                t = text
+                for gi in range(1, (m.re.groups or 0) + 1):
+                    t = t.replace('\\%d' % gi, m.group(gi) or '')
+                if where == 'after*':
+                    e = _stmt_end(body, m.start())
+                    body = body[:e] + '\n' + t + '\n' + body[e:]
+                else:
+                    b = _line_start(body, m.start())
+                    if body[b:m.start()].strip():
+                        b = m.start()
+                    body = body[:b] + t + '\n' + body[b:]
+            continue
         pos = 0
         m = None
         for _ in range(nth):
@@ -719,6 +759,8 @@ def splice(item, spec, stats):
             if not m:
                 raise Lost("anchor /%s/ #%d not found in %s" % (rx, nth, spec.path))
             pos = m.end()
+        for gi in range(1, (m.re.groups or 0) + 1):
+            text = text.replace('\\%d' % gi, m.group(gi) or '')
         if where == 'after':
             e = _stmt_end(body, m.start())
             body = body[:e] + '\n' + text + '\n' + body[e:]
